@@ -122,16 +122,26 @@ def run_widesrc(cases, res):
             else:
                 d = fx.Fxp(None, c['s'], c['nw'], c['nf'], **kw)
                 (d if c['route'] == 'call' else d.set_val)(src)
-            got = lib.codes_of(d)[0]
+            got = lib.codes_of(d)[0]; vdt = src.vdtype
+            vd = 1 if (vdt is not None and vdt != complex and np.issubdtype(vdt, np.integer)) else 2
+            st3 = lib.status3(d)
         except Exception as e:
             res.fail(c, 'C03: copying a wide object into a narrower wrap word raised %s' % lib.exc_name(e), got=str(e)[:200]); continue
-        pend.append((c, got)); reqs.append([4] + e_fmt(c['s'], c['nw'], c['nf']) + [RMODES.index(c['r']), 1] + e_list([Fraction(c['code'], 1 << c['src'][2])], e_dy))
-    for (c, got), out in zip(pend, model_call(reqs)):
-        rd = Reader(out); want = rd.lst(rd.z)[0]
+        pend.append((c, got, st3)); reqs.append([4] + e_fmt(c['s'], c['nw'], c['nf']) + [RMODES.index(c['r']), 1] + e_list([Fraction(c['code'], 1 << c['src'][2])], e_dy))
+        # the conversion model (exact rationals when the code has more than 53 bits and fraction bits are dropped)
+        reqs.append([30] + e_fmt(*c['src']) + e_list([c['code']]) + [1, vd] + e_fmt(c['s'], c['nw'], c['nf']) + [RMODES.index(c['r']), 1])
+    outs = model_call(reqs)
+    for i, (c, got, st3) in enumerate(pend):
+        rd = Reader(outs[2 * i]); want = rd.lst(rd.z)[0]
         res.count('F:wide-source-into-narrow-word', key=repr(c), nontrivial=True)
         res.sample(c)
         if got != want:
-            res.fail(c, 'C03: a value held by a 64-bit or wider object, stored into a narrower word under wrap, is not the residue of the exact value', expected=want, got=got)
+            res.fail(c, 'C03: a value held by a 64-bit or wider object, stored into a narrower word under wrap, is not the residue of the exact value', expected=want, got=got); continue
+        rm = Reader(outs[2 * i + 1]); n = rm.z(); tag = rm.z() if n == 1 else None
+        mo = (rm.lst(rm.z), rm.b(), rm.b(), rm.b()) if tag == 0 else None
+        if mo is None or mo[0] != [got] or (c['route'] != 'setitem' and mo[1:3] != st3[:2]):
+            res.fail(c, 'model Convert.convert disagrees with the implementation although the Spec agrees (wide source)', expected=str(mo), got=(got, st3))
+            res.failures[-1]['no_input'] = True
 
 def register_cases(rng, n):
     cases = []
@@ -224,13 +234,20 @@ def run_outreg(cases, res):
             res.fail(c, 'C03: arithmetic into a wide wrap register raised %s' % lib.exc_name(e), got=str(e)[:200]); continue
         xv = Fraction(c['cx'], 1) / (1 << c['x'][2]); yv = Fraction(c['cy'], 1) / (1 << c['y'][2])
         ex = xv + yv if c['op'] == '+' else (xv - yv if c['op'] == '-' else xv * yv)
-        pend.append((c, got)); reqs.append([4] + e_fmt(*c['out']) + [RMODES.index(c['r']), 1] + e_list([ex], e_dy))
-    for (c, got), o in zip(pend, model_call(reqs)):
+        pend.append((c, got, lib.status3(z))); reqs.append([4] + e_fmt(*c['out']) + [RMODES.index(c['r']), 1] + e_list([ex], e_dy))
+        # the arithmetic model (raw method into the imposed format: Python integers, exact rationals for a negative rescale)
+        reqs.append([41, {'+': 0, '-': 1, '*': 2}[c['op']]] + e_fmt(*c['x']) + e_list([c['cx']]) + e_fmt(*c['y']) + e_list([c['cy']]) + e_fmt(*c['out']) + [RMODES.index(c['r']), 1])
+    outs = model_call(reqs)
+    for i, (c, got, st3) in enumerate(pend):
+        o = outs[2 * i]; mo = S.read_model_store(outs[2 * i + 1])
         rd = Reader(o); want = rd.lst(rd.z)[0]
         res.count('G:narrow-operands-into-wide-register', key=repr(c), nontrivial=True)
         res.sample(c)
         if got != (want, True, tuple(c['out'])):
-            res.fail(c, 'C03: arithmetic stored through out= into a wrap register of 64 bits or more is not the residue of the exact result', expected=(want, True, tuple(c['out'])), got=got)
+            res.fail(c, 'C03: arithmetic stored through out= into a wrap register of 64 bits or more is not the residue of the exact result', expected=(want, True, tuple(c['out'])), got=got); continue
+        if mo['kind'] != 'ok' or mo['codes'] != [got[0]] or mo['status'][:2] != st3[:2]:
+            res.fail(c, 'model Arith.arith_raw disagrees with the implementation although the Spec agrees (wide register)', expected=str(mo)[:200], got=(got[0], st3))
+            res.failures[-1]['no_input'] = True
 
 def shard(shard, nshards, rng, tier, extra):
     res = Result()
